@@ -20,6 +20,7 @@ pub struct Report {
     pub counters: BTreeMap<String, i64>,
     pub inconclusive: Vec<String>,
     pub notes: Vec<String>,
+    pub about_to: Option<(String, String)>,
     pub out_path: String,
 }
 
@@ -102,6 +103,19 @@ pub fn note(s: &str) {
     })
 }
 
+/// Declare what is about to be attempted and flush the report, so that if the process dies (stack overflow, abort,
+/// SIGSEGV) the driver can attribute the death: signature `<check>:process-died:<label>`.
+pub fn about_to(label: &str, detail: &str) {
+    with(|r| {
+        r.about_to = Some((label.to_string(), detail.to_string()));
+    });
+    write();
+}
+
+pub fn done_with() {
+    with(|r| r.about_to = None);
+}
+
 pub fn to_json() -> J {
     with(|r| {
         let mut o = J::obj();
@@ -121,6 +135,9 @@ pub fn to_json() -> J {
         o.set("counters", c);
         o.set("inconclusive", J::Arr(r.inconclusive.iter().map(|s| J::Str(s.clone())).collect()));
         o.set("notes", J::Arr(r.notes.iter().map(|s| J::Str(s.clone())).collect()));
+        if let Some((l, d)) = &r.about_to {
+            o.set("about_to", J::obj().with("label", l.as_str()).with("detail", d.as_str()));
+        }
         o
     })
 }
